@@ -346,7 +346,7 @@ def check_history(case, acc):
     acc.out((bname, "history-ok"))
 
 
-CIRC_OPS = ["add", "par", "reidx", "trim", "addhi"]
+CIRC_OPS = ["add", "par", "reidx", "trim", "addhi", "merge", "redund", "addrot"]
 
 
 def check_circuit_history(case, acc):
@@ -398,7 +398,18 @@ def check_circuit_history(case, acc):
                 c.reindex_qubits([(i + 1) % k for i in range(k)])
             elif op == "trim":
                 c.trim_qubits()
+            elif op == "merge":
+                c.merge_rotations()
+            elif op == "redund":
+                c.remove_redundant_gates()
+            elif op == "addrot":
+                c.add_gate(Gate("RX", c.width - 1, parameter=A[1]))      # mergeable with a trailing RX on the same qubit
         except Exception as e:
+            if op in ("add", "addhi", "addrot") and isinstance(e, ValueError) and "beyond expected maximal index" in str(e):
+                # an in-place simplification pass fixes the width of the circuit; a later add_gate beyond it is refused loudly
+                # (DESIGN.md 7.4, outside the statement): the history ends here
+                acc.count("circuit_histories_ended_by_loud_refusal(add_gate beyond the width fixed by a pass)")
+                return
             acc.violation(f"{bname}/circuit-history/operation-raises/{op}", case, {"step": step, "err": repr(e)[:300]},
                           group=f"{bname}/circuit-history/operation-raises")
             return
